@@ -56,6 +56,7 @@ type Engine struct {
 	icache sync.Map // *ssa.Function -> intrinsicEntry
 	srcHash sync.Map
 	finfo   sync.Map
+	tcache  sync.Map
 }
 
 type HarnessResult struct {
@@ -354,6 +355,9 @@ func (wk *worker) runPath(fn *ssa.Function, prefix []Dec) (ps *pathState) {
 	func() {
 		defer func() {
 			r := recover()
+			if _, isCrash := r.(crashPanic); isCrash {
+				r = nil
+			}
 			if r != nil {
 				if _, ok := r.(abortPanic); !ok {
 					func() {
@@ -375,6 +379,29 @@ func (wk *worker) runPath(fn *ssa.Function, prefix []Dec) (ps *pathState) {
 		ps.initDone = true
 		callIn(i, top, g0, token.NoPos, fn, nil)
 	}()
+	if ps.crashed && ps.onCrash != nil && ps.out == outRunning {
+		// post-mortem after an injected crash: nothing of the interrupted run continues
+		ps.fs.crashAt = -1
+		ps.sched = newSched(i)
+		g0 = ps.sched.gs[0]
+		top = &frame{i: i, g: g0, fn: fn}
+		g0.top = top
+		ps.panicActive = false
+		func() {
+			defer func() {
+				if r := recover(); r != nil {
+					if _, ok := r.(abortPanic); !ok {
+						func() {
+							defer func() { recover() }()
+							i.topLevelPanic(top, r)
+						}()
+					}
+				}
+				ps.sched.killAll()
+			}()
+			callIn(i, top, g0, token.NoPos, ps.onCrash, nil)
+		}()
+	}
 	if ps.out == outRunning {
 		ps.out = outOK
 	}
